@@ -14,8 +14,9 @@ REF = {"lit-small": "5", "lit-large": "0x1234", "back-small": "bsmall", "back-la
        "equ-small": "EQS", "equ-large": "EQL", "define-large": "DFL", "set-small": "STS"}
 
 
-def program(cpu, line, slot, kind, line2=None, slot2=None, kind2=None, scoped=False):
+def program(cpu, line, slot, kind, line2=None, slot2=None, kind2=None, scoped=False, bpa=1):
     k, s, e, pre = slot
+    pad = ", 0" * (max(bpa, 4) - 4)          # a marker fills whole address units
     instr = line[:s] + REF[kind] + line[e:]
     src = [corpus.header(cpu).rstrip("\n"), "EQS equ 6", "EQL equ 0x1230", ".define DFL 0x1238", ".set STS=7",
            ".org 0x10", "bsmall:", ".db 0x11, 0x11, 0x11, 0x11", ".org 0x800", "blarge:", ".db 0x12, 0x12, 0x12, 0x12",
@@ -25,11 +26,11 @@ def program(cpu, line, slot, kind, line2=None, slot2=None, kind2=None, scoped=Fa
         src += [".scope", instr.replace("fsmall", "shadow").replace("flarge", "shadow"), ".ends"]
     else:
         src += [instr]
-    src += ["L1:", ".db 0xa1, 0xb2, 0xc3, 0xd4", "L2:"]
+    src += ["L1:", ".db 0xa1, 0xb2, 0xc3, 0xd4" + pad, "L2:"]
     if line2 is not None:
         k2, s2, e2, p2 = slot2
         src += [line2[:s2] + REF[kind2] + line2[e2:]]
-    src += ["L3:", ".db 0xa5, 0xb6, 0xc7, 0xd8", "L4:",
+    src += ["L3:", ".db 0xa5, 0xb6, 0xc7, 0xd8" + pad, "L4:",
             ".org 0x20", "fsmall:", ".db 0x21, 0x21, 0x21, 0x21", ".org 0x2000", "flarge:", ".db 0x22, 0x22, 0x22, 0x22"]
     return "\n".join(src) + "\n"
 
@@ -53,7 +54,7 @@ def evaluate(r, bpa):
         if want not in hits:
             return "%s is 0x%x in the symbol table (pass 1) but the bytes that follow it are placed at %s in the output (pass 2)" % (
                 lab, syms[lab], ["0x%x" % (h // bpa) for h in hits] or "no address")
-    if "L2" in syms and syms["L2"] * bpa != syms["L1"] * bpa + 4:
+    if "L2" in syms and syms["L2"] * bpa != syms["L1"] * bpa + max(bpa, 4):
         return "L2 is 0x%x, expected directly after the 4 marker bytes at L1 (0x%x)" % (syms["L2"], syms["L1"])
     return None
 
@@ -67,13 +68,13 @@ def job(j):
             for si, slot in enumerate(sl):
                 for kind in KINDS:
                     for opt in ((0,) if quick and kind not in ("fwd-small", "fwd-large") else (0, 2)):
-                        cases.append((opt, program(cpu, line, slot, kind)))
+                        cases.append((opt, program(cpu, line, slot, kind, bpa=bpa)))
                         meta.append((line, si, kind, opt, None))
                 if not quick:
                     # a second variable instruction after the first: every ordered pair of the forward/backward kinds
                     for k1 in ("fwd-small", "fwd-large", "back-small"):
                         for k2 in ("fwd-small", "fwd-large", "lit-small"):
-                            cases.append((0, program(cpu, line, slot, k1, line, slot, k2)))
+                            cases.append((0, program(cpu, line, slot, k1, line, slot, k2, bpa=bpa)))
                             meta.append((line, si, k1 + "+" + k2, 0, None))
         res = inproc.asm_batch(cases, flavour="rel", name="c02", cpu=30)
         viol, acc, crashed = [], 0, 0
